@@ -205,6 +205,11 @@ def check(chk):
         for s_ in stores:
             chk.ob("PAIR-15", "%s cuts the buffer only when a delimiter was found" % qn, cfg.guards_at(s_.id).get("%s == -1" % pos) is False,
                    f.where(s_.ast), construct=f.ident, text="cut guard")
+        from sa.helpers import loop_progress
+        loop_progress(chk, "PROGRESS-1", f, lambda n, buf=buf, pos=pos: isinstance(n.ast, ast.Assign) and src(n.ast.targets[0]) == buf and
+                      src(n.ast.value).replace(" ", "") == "%s[%s+1:]" % (buf, pos), qn.split(".")[0])
+        disp = [n for n, c in cfg.calls_named("process_received_message", "_dispatch_incoming_msg")]
+        chk.ob("PAIR-15", "%s hands complete frames on" % qn, bool(disp), f.where(), construct=f.ident, text="dispatch present")
     # ------------------------------------------------------------ PAIR-15 length framing (OPP) + TABLE-4
     f = repo.func(OS_, "OPPSerialCommunicator._parse_msg")
     chk.analysed(f)
@@ -262,6 +267,23 @@ def check(chk):
         chk.ob("PAIR-15", "OPP frame %s: the mirrored length is reduced by the same %s" % (label, U), ok, f.where(c), construct=f.ident,
                text="count %s" % label)
     chk.expect(n_disp >= 1, "C14: OPP dispatch sites lost")
+    # every frame type the handlers know is dispatched by the parser
+    for cmd_ in ("READ_GEN2_INP_CMD", "READ_MATRIX_INP"):
+        chk.ob("PAIR-15", "OPP parser dispatches complete %s frames to the platform" % cmd_, cmd_ in frames, f.where(), construct=f.ident,
+               text="dispatch of " + cmd_)
+    # converse of the mirror rule: whenever the mirrored length drops, the buffer was cut by the same amount in the same block
+    for x in [y for y in ast.walk(f.node) if isinstance(y, ast.AugAssign) and src(y.target) == "strlen" and isinstance(y.op, ast.Sub)]:
+        blk = _block_of(f.node, x)
+        cuts = [y for y in blk if isinstance(y, ast.Assign) and src(y.targets[0]) == "self.part_msg" and isinstance(y.value, ast.Subscript)
+                and isinstance(y.value.slice, ast.Slice) and y.value.slice.upper is None]
+        ok = len(cuts) == 1 and _const_or_name(cuts[0].value.slice.lower) == _const_or_name(x.value)
+        chk.ob("PAIR-15", "OPP parser: the length drops by %s only together with cutting %s bytes off the buffer" % (src(x.value), src(x.value)), ok,
+               f.where(x), detail="length and buffer disagree afterwards: frames are cut at the wrong place", construct=f.ident,
+               text="strlen -= %s without matching cut" % src(x.value))
+    from sa.helpers import loop_progress
+    loop_progress(chk, "PROGRESS-1", f, lambda n: (isinstance(n.ast, ast.AugAssign) and src(n.ast.target) == "strlen" and isinstance(n.ast.op, ast.Sub)) or
+                  (isinstance(n.ast, ast.Assign) and src(n.ast.targets[0]) == "self._lost_synch" and src(n.ast.value) == "False"),
+                  "OPP parser")    # regaining sync changes the branch the next round takes: progress of the state machine
     # every other reassignment of the buffer is a suffix slice with the matching decrement
     for n in cfg.nodes_where(lambda n: n.kind == "stmt" and isinstance(n.ast, ast.Assign) and src(n.ast.targets[0]) == "self.part_msg"):
         v = n.ast.value
@@ -330,8 +352,10 @@ def check(chk):
                 st = [x for x in ast.walk(h.node) if isinstance(x, ast.Assign) and src(x.targets[0]) == "opp_inp.old_state"]
                 ok = bool(st) and all(src(x.value) == "new_state" for x in st)
                 chk.ob("DOM-28", "%s: the remembered state becomes the reported state" % hn, ok, h.where(), construct=h.ident, text="old=new")
+            _opp_payload(chk, h, hn, N)
     chk.floor("TABLE-4", 6)
     chk.floor("DOM-28", 20)
+    chk.floor("BYTES-1", 8)
     # ------------------------------------------------------------ TABLE-5
     oi = repo.cls(OI, "OppRs232Intf")
     tbl = oi.attrs.get("CRC8_LOOKUP")
@@ -426,6 +450,81 @@ def check(chk):
         chk.ob("SYNC-1", "%s reports state %d for the hex switch number" % (nm, stt), ok, h.where(), construct=h.ident, text=nm + " state")
 
 
+def _flatten_or(e):
+    if isinstance(e, ast.BinOp) and isinstance(e.op, ast.BitOr):
+        return _flatten_or(e.left) + _flatten_or(e.right)
+    return [e]
+
+
+def _opp_payload(chk, h, hn, N):
+    """BYTES-1: the switch bits of an OPP input frame are the data bytes msg[2] .. msg[N-2] assembled big-endian
+    (byte i shifted left by 8 * (N-2-i)), joined with `|` only.  BITS-1: every changed bit is reported once, with the
+    switch number of that bit and the state the frame says (a set bit is an open = inactive switch)."""
+    if N is None:
+        return
+    asg = [x for x in ast.walk(h.node) if isinstance(x, ast.Assign) and isinstance(x.targets[0], (ast.Name, ast.Attribute)) and
+           any(isinstance(y, ast.Subscript) and src(y.value) == "msg" for y in ast.walk(x.value)) and
+           isinstance(x.value, ast.BinOp) and isinstance(x.value.op, ast.BitOr)]
+    chk.ob("BYTES-1", "%s assembles the input bits from the frame" % hn, len(asg) == 1, h.where(), construct=h.ident, text="bit assembly in " + hn)
+    if len(asg) != 1:
+        return
+    terms = _flatten_or(asg[0].value)
+    got = {}
+    shape = True
+    for t in terms:
+        if isinstance(t, ast.BinOp) and isinstance(t.op, ast.LShift) and isinstance(t.left, ast.Subscript) and src(t.left.value) == "msg":
+            got[const_value(t.left.slice)] = const_value(t.right)
+        elif isinstance(t, ast.Subscript) and src(t.value) == "msg":
+            got[const_value(t.slice)] = 0
+        else:
+            shape = False
+    last = N - 2
+    want = {i: 8 * (last - i) for i in range(2, last + 1)}
+    chk.ob("BYTES-1", "%s: data bytes msg[2..%d] are combined big-endian with `|` (byte i << 8*(%d-i))" % (hn, last, last), shape and got == want,
+           h.where(asg[0]), detail="found %s, expected %s" % (sorted(got.items()), sorted(want.items())), construct=h.ident,
+           text="byte/shift table %s" % sorted(got.items()))
+    nbits = 8 * (last - 1)
+    state_name = src(asg[0].targets[0])
+    if "initial" in hn:
+        return
+    loops = [x for x in ast.walk(h.node) if isinstance(x, ast.For) and isinstance(x.iter, ast.Call) and call_attr(x.iter) == "range"]
+    ra = [const_value(a) for a in loops[0].iter.args] if loops else []
+    if len(ra) == 1:
+        ra = [0] + ra
+    # matrix inputs are numbered after the 32 direct inputs of a card (tabled offset)
+    ok = bool(loops) and len(ra) == 2 and None not in ra and ra[1] - ra[0] == nbits and ra[0] == (32 if "matrix" in hn else 0)
+    chk.ob("BYTES-1", "%s walks all %d input bits" % (hn, nbits), ok, h.where(loops[0]) if loops else h.where(), construct=h.ident,
+           text="bit loop range in " + hn)
+    if not loops:
+        return
+    lp = loops[0]
+    idx = src(lp.target)
+    shifts = [x for x in ast.walk(lp) if isinstance(x, ast.AugAssign) and src(x.target) == "curr_bit"]
+    ok = len(shifts) == 1 and isinstance(shifts[0].op, ast.LShift) and const_value(shifts[0].value) == 1 and shifts[0] in lp.body
+    chk.ob("BITS-1", "%s: the bit mask advances by one bit per switch, on every pass" % hn, ok, h.where(lp), construct=h.ident,
+           text="mask advance in " + hn)
+    init = [x for x in ast.walk(h.node) if isinstance(x, ast.Assign) and src(x.targets[0]) == "curr_bit"]
+    chk.ob("BITS-1", "%s: the mask starts at bit 0" % hn, bool(init) and all(const_value(x.value) == 1 for x in init), h.where(), construct=h.ident,
+           text="mask start in " + hn)
+    hc = h.cfg()
+    for n, c in hc.calls_named("process_switch_by_num"):
+        g = hc.guards_at(n.id)
+        changed = g.get("curr_bit & changes != 0") is True or g.get("curr_bit & changes") is True or g.get("curr_bit & changes == 0") is False
+        chk.ob("BITS-1", "%s: a switch is reported only when its bit changed" % hn, changed, h.where(c), detail="guards %s" % sorted(g.items()),
+               construct=h.ident, text="changed-bit guard")
+        st = kwarg(c, "state")
+        bit_clear = g.get("curr_bit & %s == 0" % state_name)
+        if bit_clear is None and g.get("curr_bit & %s != 0" % state_name) is not None:
+            bit_clear = not g.get("curr_bit & %s != 0" % state_name)
+        want_state = 1 if bit_clear else 0
+        chk.ob("BITS-1", "%s: a cleared bit is reported active (1), a set bit inactive (0)" % hn, bit_clear is not None and st is not None and
+               const_value(st) == want_state, h.where(c), detail="state=%s under %s" % (src(st) if st is not None else None, sorted(g.items())),
+               construct=h.ident, text="bit polarity")
+        num = kwarg(c, "num")
+        chk.ob("BITS-1", "%s: the switch number ends in the bit index" % hn, num is not None and src(num).replace(" ", "").endswith("str(%s)" % idx),
+               h.where(c), detail=src(num) if num is not None else "", construct=h.ident, text="switch number")
+
+
 def _callee_awaits_response(repo, cls, wait_for_calls):
     """Does the coroutine guarded by wait_for itself await the response (done_waiting / a future set by the dispatcher)?"""
     for c in wait_for_calls:
@@ -488,6 +587,15 @@ def battery():
         # twins
         M("twin: partition style unchanged semantics", FB, "            if not msg:\n                continue\n\n            try:\n                msg = msg.decode()", "            if len(msg) == 0:\n                continue\n\n            try:\n                msg = msg.decode()", None),
         M("twin: extra log in OPP parser", OS_, "        message_found = 0\n", "        message_found = 0\n        first = self.part_msg[:1]\n", None),
+        M("OPP input bytes assembled little-endian", OP, "            new_state = (msg[2] << 24) | \\\n                (msg[3] << 16) | \\\n                (msg[4] << 8) | \\\n                msg[5]\n\n            # Update the state which holds inputs that are active", "            new_state = (msg[5] << 24) | \\\n                (msg[4] << 16) | \\\n                (msg[3] << 8) | \\\n                msg[2]\n\n            # Update the state which holds inputs that are active", "BYTES-1"),
+        M("OPP matrix byte dropped", OP, "(msg[6] << 24) | (msg[7] << 16) | (msg[8] << 8) | msg[9])\n\n            changes", "(msg[6] << 24) | (msg[7] << 16) | (msg[8] << 8))\n\n            changes", "BYTES-1"),
+        M("OPP bit polarity inverted", OP, "                        if (curr_bit & new_state) == 0:\n                            self.machine.switch_controller.process_switch_by_num(\n                                state=1,", "                        if (curr_bit & new_state) != 0:\n                            self.machine.switch_controller.process_switch_by_num(\n                                state=1,", "BITS-1"),
+        M("OPP mask advances only for changed bits", OP, "                                platform=self)\n                    curr_bit <<= 1\n            opp_inp.old_state = new_state\n\n        # we can continue to poll\n        self._poll_response_received[chain_serial].set()\n\n    def read_matrix_inp_resp_initial", "                                platform=self)\n                        curr_bit <<= 1\n            opp_inp.old_state = new_state\n\n        # we can continue to poll\n        self._poll_response_received[chain_serial].set()\n\n    def read_matrix_inp_resp_initial", "BITS-1"),
+        M("OPP lost-sync byte counted but not dropped", OS_, "                    self.part_msg = self.part_msg[1:]\n                    strlen -= 1\n            # Check if this is a gen2 card address", "                    strlen -= 1\n            # Check if this is a gen2 card address", "PAIR-15"),
+        M("OPP EOM byte never consumed", OS_, "            elif self.part_msg[0] == ord(OppRs232Intf.EOM_CMD):\n                self.part_msg = self.part_msg[1:]\n                strlen -= 1", "            elif self.part_msg[0] == ord(OppRs232Intf.EOM_CMD):\n                pass", "PROGRESS-1"),
+        M("PKONE buffer never cut", PK, "            self.received_msg = self.received_msg[pos + 1:]\n", "", "PROGRESS-1"),
+        M("PKONE frames decoded but dropped", PK, "            if msg.decode() not in self.ignored_messages:\n                self.platform.process_received_message(msg.decode())", "            if msg.decode() not in self.ignored_messages:\n                pass", "PAIR-15"),
+        M("OPP matrix frames never dispatched", OS_, "                        self.platform.process_received_message(self.chain_serial, self.part_msg[:11])\n", "", "PAIR-15"),
     ]
 
 
